@@ -121,6 +121,11 @@ func c02Body(t *rapid.T, id, kind string, cfg c02Cfg, labels map[string]bool) *a
 		obs = append(obs, ast.Dollar())
 	}
 	stmts := []*ast.Node{ast.Print(obs...)}
+	if (kind == "BEGIN" || kind == "END") && rapid.IntRange(0, 3).Draw(t, "assigndollar") == 0 {
+		// a BEGIN / END rule assigns $: the next BEGIN / END rule starts with $ null again
+		stmts = append(stmts, ast.ExprS(ast.Set(ast.Dollar(), ast.Str("set-in-"+id))), ast.Print(ast.Str(id+"-set"), ast.Dollar()))
+		labels["begin-or-end-rule-assigns-$"] = true
+	}
 	if kind == "pattern" && rapid.IntRange(0, 5).Draw(t, "writebinding") == 0 {
 		// the program overwrites $index / $file: the next element (value) gets a fresh binding
 		if cfg.allArrays && rapid.Bool().Draw(t, "writeindex") {
